@@ -168,5 +168,14 @@ CHECKS["C17"] = dict(
          "mirrored private RandomState",
     technique="symbolic state-machine model of the RNG decided by z3 over uninterpreted functions; symbolic execution of the Hutchinson loop on symbolic probes "
               "with exact moment substitution; replay on the real generator under several user-draw histories")
-for _p in ["C19"]:
+CHECKS["C19"] = dict(
+    text="(i) the real _matmat of Kronecker (2-4 factors, also rectangular), KronSum, BlockDiag with multiplicities, Sum / Product with Diagonal, Identity, ScalarMul, "
+         "Tridiagonal, Permutation executed on shape-symbolic arrays (dimensions are polynomials over positive integer variables): z3 proves for ALL factor sizes and "
+         "column counts that every allocation is <= 2 n c + sum n_i^2 while n^2 exceeds that bound; (ii) symbolic execution of the real dispatch resolver proves that "
+         "for 12 entry points, every structured kind / annotation / dtype / admissible algorithm, with and without the optional algorithm argument, a structural rule "
+         "(not the dense base case) is selected; (iii) the structural rules run on symbolic payloads with an allocation audit: no array with n^2 or more entries",
+    note=_TB + "; (iii) is at concrete factor sizes (2, 3); wall time and Python-level loops over a dimension (Kernel) are outside",
+    technique="shape-symbolic execution of the Python source with z3 (QF_NIA) size bounds; symbolic execution of the dispatcher over z3 finite sorts; "
+              "allocation audit during symbolic execution of the structural rules")
+for _p in []:
     NA[_p] = "check under construction in this session (not yet registered); see DESIGN.md section 5 for the plan"
